@@ -28,7 +28,10 @@ CODES = {
 }
 RULE = ("elections with 1..5 projects and 1..5 voters from the shared tie-rich generator (equal-cost blocks, zero and "
         "fractional costs, budgets on boundaries, duplicated ballots, party lists, nested chains, empty/full ballots), "
-        "a third with all costs equal and few distinct ballots; every fourth case from a targeted stream (Equal Shares with "
+        "a third with all costs equal and few distinct ballots; every fourth case from a boundary stream (zero-cost projects, supported and unsupported, with the budget hit exactly "
+        "by a subset of the other projects or equal to zero; single voter; single project; all ballots equal; every "
+        "project unaffordable; all three rules, all ballot types; greedy also with non-dyadic fractional costs whose "
+        "satisfaction per cost ties exactly), every fourth case from a targeted stream (Equal Shares with "
         "Cost_Sat / Phragmen, 4-5 projects, tied projects with overlapping but different supporter sets, single-supporter "
         "cheap projects, budgets one purchase short: the two orders of a tied pair reach the same selection with "
         "different budgets/loads and then diverge); rules: greedy welfare (all four ballot types, additive "
@@ -101,18 +104,140 @@ def gen_overlap(rng, i):
         ballots = [[p for p in range(n) if v in sup[p]] for v in range(nv)]
     if b <= 0:
         b = Fraction(1)
+    multi = rng.random() < 0.4
+    if multi:      # multiplicities >= 2 on ballots whose voters carry positive loads / partly spent budgets
+        for _ in range(rng.choice([1, 1, 2])):
+            ballots.append(rng.choice(ballots))
     order = list(range(n))
     rng.shuffle(order)
     perm = list(range(n))
     rng.shuffle(perm)
     return {"costs": [pb.qs(c) for c in costs], "budget": pb.qs(b), "order": order, "btype": "approval",
-            "ballots": ballots, "multi": rng.random() < 0.3, "rule": rule,
+            "ballots": ballots, "multi": multi, "rule": rule,
             "sat": None if rule == "phragmen" else rng.choice(["Cost_Sat", "Cost_Sat", "Cost_Sat", "Cardinality_Sat"]),
             "init": [], "tb": rng.choice(["lexico", "min_cost", "max_cost", "perm", "app_score"]), "perm": perm,
             "solver": False, "loads": None, "binary": None, "stream": "overlap"}
 
 
+def gen_ratio(rng):
+    """greedy, additive measure with a non-integer density: costs c*k with c a non-dyadic fraction and k supporters for
+    multiplier k, so that satisfaction per cost ties EXACTLY (1/c for every project) although neither the costs nor the
+    densities are representable as binary floats; the budget lets only some of the tied projects in."""
+    n = rng.choice([2, 3, 3, 4, 5])
+    nv = rng.choice([3, 3, 4])
+    c = pb.F(rng.choice(["11/10", "13/10", "3/10", "9/10", "3/5", "11/5", "23/10", "11/10", "7/10", "1/3"]))
+    ks = [rng.choice([1, 1, 2, 3, 3]) for _ in range(n)]
+    if 3 not in ks:
+        ks[rng.randrange(n)] = 3      # float(3)/float(3c) != float(1)/float(c) for most of these c
+    if all(k == 3 for k in ks):
+        ks[rng.randrange(n)] = rng.choice([1, 2])
+    costs = [c * k for k in ks]
+    sup = [rng.sample(range(nv), k) for k in ks]
+    if rng.random() < 0.3:            # one project off the tie
+        j = rng.randrange(n)
+        sup[j] = rng.sample(range(nv), rng.randrange(0, nv + 1))
+    ballots = [sorted(p for p in range(n) if v in sup[p]) for v in range(nv)]
+    b = sum(rng.sample(costs, rng.randrange(1, n + 1)), Fraction(0)) + rng.choice([0, 0, c / 2])
+    order = list(range(n))
+    rng.shuffle(order)
+    perm = list(range(n))
+    rng.shuffle(perm)
+    return {"costs": [pb.qs(x) for x in costs], "budget": pb.qs(b), "order": order, "btype": "approval",
+            "ballots": ballots, "multi": rng.random() < 0.3, "rule": "greedy",
+            "sat": rng.choice(["Cardinality_Sat", "Cardinality_Sat", "Relative_Cardinality_Sat", "Effort_Sat"]),
+            "init": [], "tb": rng.choice(["lexico", "min_cost", "max_cost", "perm", "app_score"]), "perm": perm,
+            "solver": False, "loads": None, "binary": None, "stream": "boundary", "scenario": "ratio_costs"}
+
+
+def gen_cc(rng):
+    """greedy with a NON-additive measure: equal costs, duplicated / overlapping approval ballots, room for 2-3 projects:
+    selecting one tied project lowers the marginal score of another, so the orders of a tie lead to different sets"""
+    n = rng.choice([3, 4, 4, 5])
+    nv = rng.choice([3, 4, 5])
+    c = pb.F(rng.choice([1, 1, 2, "1/2"]))
+    ballots = []
+    for _ in range(nv):
+        if ballots and rng.random() < 0.4:
+            ballots.append(rng.choice(ballots))
+        else:
+            ballots.append(sorted(rng.sample(range(n), rng.choice([1, 2, 2, 3]))))
+    order = list(range(n))
+    rng.shuffle(order)
+    perm = list(range(n))
+    rng.shuffle(perm)
+    return {"costs": [pb.qs(c)] * n, "budget": pb.qs(c * rng.choice([2, 2, 3]) + rng.choice([0, 0, c / 2])),
+            "order": order, "btype": "approval", "ballots": ballots, "multi": rng.random() < 0.35, "rule": "greedy",
+            "sat": rng.choice(["CC_Sat", "CC_Sat", "Cost_Sqrt_Sat", "Cost_Log_Sat"]), "init": [],
+            "tb": rng.choice(["lexico", "min_cost", "max_cost", "perm", "app_score"]), "perm": perm,
+            "solver": False, "loads": None, "binary": None, "stream": "boundary", "scenario": "non_additive_ties"}
+
+
+def gen_boundary(rng, i):
+    """Boundary stream (all three rules): zero-cost projects, supported and unsupported, left over when the budget is
+    hit exactly or is zero; single voter; single project; all ballots equal; every project unaffordable."""
+    rule = ["greedy", "mes", "phragmen"][i % 3]
+    if rule == "greedy":
+        r = rng.random()
+        if r < 0.4:
+            return gen_ratio(rng)
+        if r < 0.6:
+            return gen_cc(rng)
+    scen = rng.choice(["zero_exact", "zero_exact", "zero_exact", "zero_budget", "single_voter", "single_project",
+                       "equal_ballots", "unaffordable"])
+    n = 1 if scen == "single_project" else rng.choice([2, 3, 3, 4, 4, 5])
+    nv = 1 if scen == "single_voter" else rng.choice([1, 2, 3, 3, 4])
+    btype = "approval" if rule == "phragmen" else rng.choice(["approval", "approval", "approval", "cardinal", "ordinal",
+                                                              "cumulative"])
+    nzero = 0
+    if scen in ("zero_exact", "zero_budget") or rng.random() < 0.3:
+        nzero = rng.choice([1, 1, 2]) if n >= 2 else rng.choice([0, 1])
+        nzero = min(nzero, n)
+    pool = rng.choice([[1], [1, 1, 2], [2], [1, 2, 3], ["1/2", 1], [2, 3]])
+    costs = [Fraction(0)] * nzero + [pb.F(rng.choice(pool)) for _ in range(n - nzero)]
+    rng.shuffle(costs)
+    pos = [c for c in costs if c > 0]
+    if scen == "zero_budget":
+        b = Fraction(0)
+    elif scen == "unaffordable":
+        b = (min(pos) - Fraction(1, 2)) if pos else Fraction(0)
+        if rng.random() < 0.3:
+            b = Fraction(0)
+    elif scen == "single_project":
+        b = rng.choice([costs[0], costs[0] + 1, max(Fraction(0), costs[0] - Fraction(1, 2)), Fraction(0)])
+    else:
+        # the budget is hit exactly by a subset of the positive-cost projects (possibly all, possibly none)
+        k = rng.randrange(0, len(pos) + 1) if pos else 0
+        b = sum(rng.sample(pos, k), Fraction(0)) if rng.random() < 0.8 else sum(sorted(pos)[:k], Fraction(0))
+    zero_supported = {j: rng.random() < 0.5 for j in range(n) if costs[j] == 0}
+    if btype == "approval":
+        ballots = []
+        for v in range(nv):
+            bl = [j for j in range(n) if costs[j] > 0 and rng.random() < 0.6]
+            bl += [j for j in range(n) if costs[j] == 0 and zero_supported[j] and (rng.random() < 0.6 or v == 0)]
+            ballots.append(sorted(bl))
+    else:
+        ballots = elections.gen_ballots(rng, btype, n, nv)
+    if scen == "equal_ballots" and ballots:
+        ballots = [ballots[0]] * len(ballots)
+    order = list(range(n))
+    rng.shuffle(order)
+    perm = list(range(n))
+    rng.shuffle(perm)
+    if rule == "phragmen":
+        sat = None
+    elif rule == "mes":
+        sat = rng.choice([x for x, (add, solver) in elections.SATS[btype].items() if add and not solver])
+    else:
+        sat = rng.choice([x for x, (add, solver) in elections.SATS[btype].items() if not solver])
+    tbs = ["lexico", "min_cost", "max_cost", "perm"] + (["app_score"] if btype == "approval" else [])
+    return {"costs": [pb.qs(c) for c in costs], "budget": pb.qs(b), "order": order, "btype": btype, "ballots": ballots,
+            "multi": rng.random() < 0.35, "rule": rule, "sat": sat, "init": [], "tb": rng.choice(tbs), "perm": perm,
+            "solver": False, "loads": None, "binary": None, "stream": "boundary", "scenario": scen}
+
+
 def gen(rng, i, tier):
+    if i % 4 == 1:
+        return gen_boundary(rng, i // 4)
     if i % 4 == 3:
         return gen_overlap(rng, i // 4)
     rule = ["greedy", "mes", "phragmen"][i % 3]
@@ -300,6 +425,8 @@ def stats(cases, obs):
          "fractional_cost": 0, "non_additive_sat": 0, "float_valued_sat": 0, "resolute_runs": 0,
          "several_outcomes_by_rule": {}, "shipped_rule_outcomes_differ": 0, "model_compared": 0,
          "outcomes_of_different_size": 0, "phragmen_initial_loads": 0, "mes_binary_sat": {},
+         "boundary_stream": {}, "zero_budget": 0, "budget_hit_exactly_by_some_outcome": 0,
+         "zero_cost_unsupported_project": 0, "single_voter": 0, "single_project": 0, "nothing_affordable": 0,
          "overlap_stream": {"mes": 0, "phragmen": 0, "mes_several_outcomes": 0, "phragmen_several_outcomes": 0}}
 
     def inc(h, k):
@@ -329,6 +456,17 @@ def stats(cases, obs):
         d["model_compared"] += not (c["rule"] == "greedy" and c["sat"] in FLOAT_SATS)
         d["outcomes_of_different_size"] += len({len(w) for w in o["irr"]}) > 1
         d["phragmen_initial_loads"] += c.get("loads") is not None
+        if c.get("stream") == "boundary":
+            inc(d["boundary_stream"], c["rule"] + ":" + c.get("scenario", "?"))
+        B = pb.F(c["budget"])
+        d["zero_budget"] += B == 0
+        d["budget_hit_exactly_by_some_outcome"] += any(sum((cs[j] for j in w), Fraction(0)) == B for w in o["irr"])
+        if c["btype"] == "approval":
+            d["zero_cost_unsupported_project"] += any(cs[j] == 0 and not any(j in b for b in c["ballots"])
+                                                      for j in range(len(cs)))
+        d["single_voter"] += len(c["ballots"]) == 1
+        d["single_project"] += len(cs) == 1
+        d["nothing_affordable"] += all(x > B for x in cs)
         if c.get("stream") == "overlap":
             d["overlap_stream"][c["rule"]] += 1
             d["overlap_stream"][c["rule"] + "_several_outcomes"] += len(o["irr"]) > 1
